@@ -503,9 +503,25 @@ class CmpSite:
         return "%s:%d" % (self.body.file, self.line)
 
 
+def quiet_region(body):
+    """blocks that only evaluate log arguments or a `debug_assert!` condition (fingerprint.log_region): never a decision of the program"""
+    r = getattr(body, "_quiet", None)
+    if r is None:
+        try:
+            import fingerprint as _FP
+            r = _FP.log_region(body)
+        except Exception:
+            r = set()
+        body._quiet = r
+    return r
+
+
 def cmp_sites(body):
     out = []
+    quiet = quiet_region(body)
     for i, blk in enumerate(body.blocks):
+        if i in quiet:
+            continue
         for st in blk["s"]:
             rv = st[1]
             if rv.get("k") == "bin" and rv["op"] in CMP_OPS and not st[0][1]:
@@ -622,6 +638,15 @@ def cmp_table(R, key, body, A, B, expect, classify, what="", min_sites=1, max_si
                     sa, sb = sb, sa
                 da = sorted(list(arith[0]) + pattern_lits(A))
                 db = sorted(list(arith[1]) + pattern_lits(B))
+                if sa != da or sb != db:
+                    # the same boundary written with a named constant instead of the literal the rule names
+                    va, vb_ = arith_of(body, site.a, True), arith_of(body, site.b, True)
+                    if swapped:
+                        va, vb_ = vb_, va
+                    if va == da:
+                        sa = va
+                    if vb_ == db:
+                        sb = vb_
                 if sa != da or sb != db:
                     R.bad(key, "%s: the operands of the comparison at %s carry arithmetic %s / %s, the frozen form is %s / %s: the boundary moved" % (
                         what or "cmp", site.where(), sa, sb, da, db), [site.where()])
@@ -1041,9 +1066,15 @@ def expr_sig(body, op, depth=0, seen=None, out=None):
     return out
 
 
-def arith_of(body, op):
-    """ops and literals only (sorted)"""
-    return sorted(x for x in expr_sig(body, op) if x.startswith("op:") or x.startswith("lit:"))
+def arith_of(body, op, const_values=False):
+    """ops and literals only (sorted). const_values: a named scalar constant counts as its value (`96` vs `MAX_EXTENSION_BYTES = 96`)"""
+    global CONST_AS_VALUE
+    prev = CONST_AS_VALUE
+    CONST_AS_VALUE = bool(const_values)
+    try:
+        return sorted(x for x in expr_sig(body, op) if x.startswith("op:") or x.startswith("lit:"))
+    finally:
+        CONST_AS_VALUE = prev
 
 
 def must_fail(R, key, body, assume=(), drop_edges=(), what="", start=0, extra_err=()):
